@@ -16,6 +16,11 @@ def stamp(i):
     return (b'S' + i.to_bytes(3, 'big')) * 64
 
 
+def stamp2(i):
+    """a stamp that cannot be mistaken for a catalogue sector (byte 5 is not a multiple of 8)"""
+    return bytes(b ^ 0xFF for b in stamp(i))
+
+
 def build_side(tracks, spt, title):
     total = min(1023, tracks * spt)
     cat = discs.AbsCat(title, 0, 0, total, [])
@@ -82,6 +87,34 @@ def run(ctx):
         cases.append(vlib.Case('%s-%d-%d-%d' % (kind, tracks, spt, sides), {name: img},
                                ['--file', '@' + name, 'dump-sector', '0', str(tracks), '0'],
                                meta={'kind': kind, 'tracks': tracks, 'spt': spt, 'sides': sides, 'want': None, 'pt': (0, tracks, 0)}))
+    # two-sided interleaved images whose second side is unformatted (all zero / all E5): side 0 is a usable drive
+    for (tracks, spt) in ((40, 10), (80, 10), (40, 18), (80, 18), (35, 10)):
+        for fillb in (0x00, 0xE5):
+            n_side = tracks * spt
+            img = bytearray()
+            a, b = build_side(tracks, spt, b'SIDE0')
+            for t in range(tracks):
+                for s_ in range(spt):
+                    sec = t * spt + s_
+                    img += a if sec == 0 else b if sec == 1 else stamp2((2 * t) * spt + s_)
+                img += bytes([fillb]) * (spt * 256)
+            bname = 'u.ddd' if spt != 10 else 'u.dsd'
+            for (t, s_) in ((0, 2), (tracks - 1, spt - 1), (tracks // 2, 1)):
+                cases.append(vlib.Case('blank2-%d-%d-%02x' % (tracks, spt, fillb), {bname: bytes(img)}, ['--file', '@' + bname, 'dump-sector', '0', str(t), str(s_)],
+                                       meta={'kind': 'il', 'tracks': tracks, 'spt': spt, 'sides': 2, 'want': (2 * t) * spt + s_, 'pt': (0, t, s_), 'blank2': True}))
+    # truncated images (the file stops before the end of the surface, at lengths that are not multiples of anything convenient):
+    # sectors that exist read correctly, sectors beyond the end of the file fail
+    for (tracks, spt, keep_sectors, extra) in ((40, 10, 37, 0), (40, 10, 100, 100), (80, 10, 33, 255), (40, 18, 50, 0), (80, 18, 17, 1)):
+        name, img, spec = container('ni', tracks, spt, 1)
+        cut = img[:keep_sectors * 256 + extra]
+        tname = 't' + name
+        for sec in sorted(set([2, 3, keep_sectors - 1, keep_sectors, keep_sectors + 1, keep_sectors + 2, keep_sectors + 15, keep_sectors + 16, keep_sectors + 17,
+                               (keep_sectors // 16) * 16 + 15, (keep_sectors // 16 + 1) * 16, tracks * spt - 1])):
+            if sec < 2 or sec >= tracks * spt:
+                continue
+            t, s_ = divmod(sec, spt)
+            cases.append(vlib.Case('trunc-%d-%d-%d+%d' % (tracks, spt, keep_sectors, extra), {tname: cut}, ['--file', '@' + tname, 'dump-sector', '0', str(t), str(s_)],
+                                   meta={'kind': 'ni', 'tracks': tracks, 'spt': spt, 'sides': 1, 'want': (spec(0, t, s_) if sec < keep_sectors else None), 'pt': (0, t, s_), 'truncated': True}))
     # MMB: sparse archive, every status value somewhere, slots probed incl. 0, 1, 255, 510
     statuses = {}
     probe = [0, 1, 2, 15, 16, 254, 255, 256, 509, 510] + [r.below(511) for _ in range(6 if ctx.tier == 'quick' else 120)]
@@ -142,18 +175,20 @@ def run(ctx):
             continue
         if m['want'] is None:
             if i['exit'] == 0:
-                ctx.violation('beyond-end-readable', 'a read beyond the end of the surface succeeded', common.replay_of(c))
+                ctx.violation('beyond-end-readable', 'a read beyond the end of the %s succeeded' % ('image file' if m.get('truncated') else 'surface'), common.replay_of(c))
             continue
         got = parse_hexdump(i['out'])
-        want = stamp(m['want']) if m['kind'] != 'mmb' else stamp(m['want'])
+        want = stamp2(m['want']) if m.get('blank2') else stamp(m['want'])
         if i['exit'] != 0 or got != want:
-            if m['kind'] == 'ni' and m.get('sides') == 2:
+            if m.get('blank2'):
+                key = 'blank-second-side'
+            elif m['kind'] == 'ni' and m.get('sides') == 2:
                 key = 'two-sided-noninterleaved'
             elif m.get('spt') == 16:
                 key = '16-sectors-per-track'
             else:
                 key = 'offset-%s' % m['kind']
-            seen = int.from_bytes(got[1:4], 'big') if len(got) >= 4 and got[0:1] == b'S' else None
+            seen = int.from_bytes(got[1:4], 'big') if len(got) >= 4 and got[0:1] == b'S' else int.from_bytes(bytes(x ^ 0xFF for x in got[1:4]), 'big') if len(got) >= 4 and got[0:1] == b'\xac' else None
             ctx.violation(key, '%s %dx%dx%d: dump-sector %s read file sector %s, documented offset is sector %d (exit %d)' % (
                 c.tag, m.get('tracks', 80), m.get('spt', 10), m.get('sides', 1), m['pt'], seen, m['want'], i['exit']), common.replay_of(c))
 
